@@ -377,6 +377,8 @@ def _kani_phase(d, feats, harnesses, jobs, res, known=()):
             rec['vccs'] = st.get('vccs_generated', 0)
             rec['contract'] = meta[hid].get('attributes', {}).get('kind', '')
             blk = blocks.get(hid, '')
+            mvt = re.search(r'Verification Time: ([0-9.]+)s', blk)
+            rec['verif_s'] = float(mvt.group(1)) if mvt else None
             ok = (not errs.get(hid, {}).get('has_errors', True)) and str(vres.get(hid, {}).get('status', '')).lower() in ('success', 'successful', 'passed')
             if ok:
                 if rec['checks'] == 0:
